@@ -317,3 +317,5 @@ def run(repo, chk):
     chk.ob("R13.3", "selector.dict_resolver.resolve:dotted-path", ok, dr.where, "dotted names are resolved attribute by attribute from the environment")
     from .shared import activation_integrity_obligations
     activation_integrity_obligations(repo, chk, "R13.4", "receiver-constrained probes")
+    from .shared import fork_obligations
+    fork_obligations(repo, chk, "R13.4", "the receiver captured for one call of obj.method is never the table another (nested, re-entrant) call writes into")
